@@ -9,3 +9,5 @@ import DafRel.Props.C15
 #print axioms DafRel.Props.C15.bridge_locked
 #print axioms DafRel.Props.C15.bridge_simplify_methods
 #print axioms DafRel.Props.C15.finishApply_keeps_locked_nodes
+#print axioms DafRel.Props.C15.transfer_through_sql_keeps_content
+#print axioms DafRel.Props.C15.materialize_sql_keeps_content
